@@ -6,6 +6,7 @@
 #include <forward_list>
 #include <memory>
 #include <sstream>
+#include <stdexcept>
 
 #include <asam_cmp/analog_payload.h>
 #include <asam_cmp/can_fd_payload.h>
@@ -48,6 +49,8 @@ struct PktDesc
     uint16_t pktDev = 0;  // Packet::setDeviceId value (the encoder's id must win)
     uint8_t pktStream = 0;
     bool typedCtor = false;
+    int retype = 0;  // 1..3: the packet is first given a payload of another type and re-typed through getPayload() afterwards
+    bool viaCopy = false;  // the packet handed to the encoder is a copy of the one that was built
 };
 
 struct Batch
@@ -99,6 +102,30 @@ Packet makePacket(const PktDesc& d)
             default: p.setPayload(Payload(PayloadType(static_cast<ASAM::CMP::CmpHeader::MessageType>(d.msgType), d.ptype), data, n));
         }
     }
+    else if (d.retype)
+    {
+        // two public calls that are each fine alone: setPayload with some type, later the type is changed in place
+        using MT = ASAM::CMP::CmpHeader::MessageType;
+        uint8_t otherMt = d.msgType == 1 ? 3 : 1;
+        uint8_t otherPt = static_cast<uint8_t>(d.ptype ^ 0x40);
+        if (otherPt == 0)
+            otherPt = 0x41;
+        if (d.retype == 1)
+        {
+            p.setPayload(Payload(PayloadType(static_cast<MT>(otherMt), d.ptype), data, n));
+            p.getPayload().setMessageType(static_cast<MT>(d.msgType));
+        }
+        else if (d.retype == 2)
+        {
+            p.setPayload(Payload(PayloadType(static_cast<MT>(d.msgType), otherPt), data, n));
+            p.getPayload().setRawPayloadType(d.ptype);
+        }
+        else
+        {
+            p.setPayload(Payload(PayloadType(static_cast<MT>(otherMt), otherPt), data, n));
+            p.getPayload().setType(PayloadType(static_cast<MT>(d.msgType), d.ptype));
+        }
+    }
     else
         p.setPayload(Payload(PayloadType(static_cast<ASAM::CMP::CmpHeader::MessageType>(d.msgType), d.ptype), data, n));
     p.setTimestamp(d.ts);
@@ -109,6 +136,13 @@ Packet makePacket(const PktDesc& d)
     p.setSequenceCounter(d.pktSeq);
     p.setDeviceId(d.pktDev);
     p.setStreamId(d.pktStream);
+    if (d.viaCopy)
+    {
+        Packet q(p);
+        Packet t;
+        t = q;
+        return t;
+    }
     return p;
 }
 
@@ -130,6 +164,9 @@ PktDesc genPkt(Rng& r, Kind k, size_t len, uint8_t version)
     d.pktDev = static_cast<uint16_t>(r.next());
     d.pktStream = r.byte();
     d.typedCtor = r.chance(1, 3);
+    if (!d.typedCtor && r.chance(1, 5))
+        d.retype = static_cast<int>(r.range(1, 3));
+    d.viaCopy = r.chance(1, 6);
     return d;
 }
 
@@ -147,7 +184,7 @@ Kind genKind(Rng& r, int typeMode)
 }
 
 // random batch whose lengths are aimed at the fit / no-fit boundaries of the running reference layout
-Batch genBatch(Rng& r, size_t maxPackets, bool allowHuge)
+Batch genBatch(Rng& r, size_t maxPackets, bool allowHuge, bool allowUndefinedType = false)
 {
     Batch b;
     b.cfg = genConfig(r);
@@ -171,6 +208,12 @@ Batch genBatch(Rng& r, size_t maxPackets, bool allowHuge)
         if (kindMinLen(k) > len && r.chance(1, 2))
             k = (kindMsgType(k, r) == wire::MT_STATUS) ? K_GEN_STATUS : K_GEN_DATA;
         PktDesc d = genPkt(r, k, len, version);
+        if (allowUndefinedType && r.chance(1, 12))
+        {
+            d.kind = K_OTHER_MT;
+            d.msgType = 0;  // message type 'undefined': legal for the frame-level properties, outside C01's domain
+            d.typedCtor = false;
+        }
         // mirror the reference model to know the remaining space for the next packet
         size_t need = 16 + d.payload.size();
         if (need > cap)
@@ -863,15 +906,55 @@ bool topSweep(long idx, Batch& b, Rng& r)
     size_t len = 65500 + static_cast<size_t>(i % 36);
     b.cfg.max = max;
     b.cfg.min = (idx % 7 == 0) ? max : 0;
-    if (idx % 2)
+    if (idx % 4 == 1)
         b.pkts.push_back(genPkt(r, K_GEN_DATA, 1 + static_cast<size_t>(idx % 13), 1));
-    b.pkts.push_back(genPkt(r, (idx % 3) ? K_GEN_DATA : K_ETH, len, 1));
+    b.pkts.push_back(genPkt(r, (idx % 3) ? K_GEN_DATA : K_GEN_STATUS, len, 1));
+    if (idx % 4 == 3)
+    {
+        // a tiny packet of the same type BEHIND the big one: when both fit, the second message starts near offset 65536
+        PktDesc t = genPkt(r, b.pkts.back().kind, 1 + static_cast<size_t>(idx % 7), 1);
+        t.msgType = b.pkts.back().msgType;
+        b.pkts.push_back(t);
+    }
+    b.overload = static_cast<int>(idx % 3);
+    return true;
+}
+
+// n tiny messages of one type in one frame, then a follow-up packet that (0) fits exactly, (1) does not fit the rest but fits an
+// empty frame, (2) needs segmentation; n around the powers of two where a narrow per-frame message counter would wrap
+constexpr long kCountSweep = 17 * 3 * 2;
+bool countSweep(long idx, Batch& b, Rng& r)
+{
+    // (a frame of the largest legal size, 65559 bytes, holds at most 3855 messages)
+    static const size_t ns[] = {254, 255, 256, 257, 258, 510, 511, 512, 513, 514, 1023, 1024, 1025, 2047, 2048, 2049, 65};
+    size_t n = ns[idx % 17];
+    int follow = static_cast<int>((idx / 17) % 3);
+    bool status = (idx / 51) % 2;
+    const size_t each = 16 + 2;  // two payload bytes per tiny packet
+    const size_t rest = 40;      // message bytes left in the frame after the n tiny messages
+    b.cfg.max = 8 + n * each + rest;
+    b.cfg.min = 0;
+    Kind k = status ? K_GEN_STATUS : K_GEN_DATA;
+    for (size_t i = 0; i < n; ++i)
+    {
+        PktDesc d = genPkt(r, k, 2, 1);
+        d.payload = Bytes{static_cast<uint8_t>(i), static_cast<uint8_t>(i >> 8)};
+        d.ptype = 0x30;
+        b.pkts.push_back(std::move(d));
+    }
+    size_t len = follow == 0 ? rest - 16 : (follow == 1 ? rest - 16 + 1 + r.below(30) : b.cfg.max + r.below(200));
+    PktDesc f = genPkt(r, k, len, 1);
+    f.ptype = 0x31;
+    b.pkts.push_back(std::move(f));
+    PktDesc t = genPkt(r, k, 3, 1);
+    t.ptype = 0x32;
+    b.pkts.push_back(std::move(t));
     b.overload = static_cast<int>(idx % 3);
     return true;
 }
 
 // one batch per payload kind x {aggregated, segmented}, mixed type patterns, the 65535-byte payloads
-constexpr long kKindCases = K_COUNT * 2 + 8 + 10;
+constexpr long kKindCases = K_COUNT * 2 + 8 + 10 + 6;
 void kindCase(long idx, Batch& b, Rng& r)
 {
     if (idx < K_COUNT * 2)
@@ -896,6 +979,25 @@ void kindCase(long idx, Batch& b, Rng& r)
     }
     long j = idx - K_COUNT * 2;
     b.cfg.max = 120;
+    if (j >= 18)
+    {
+        // message type 'undefined' (0): first / later / only packet, fitting and needing segmentation
+        long q = j - 18;
+        PktDesc u = genPkt(r, K_OTHER_MT, (q % 2) ? 300 : 20, 1);
+        u.msgType = 0;
+        if (q / 2 == 1)
+            b.pkts.push_back(genPkt(r, K_GEN_DATA, 10, 1));
+        b.pkts.push_back(u);
+        if (q / 2 == 2)
+        {
+            PktDesc u2 = genPkt(r, K_OTHER_MT, 250, 1);
+            u2.msgType = 0;
+            b.pkts.push_back(u2);
+        }
+        b.pkts.push_back(genPkt(r, K_GEN_DATA, 12, 1));
+        b.overload = 0;
+        return;
+    }
     if (j >= 8)
     {
         // hundreds / thousands of tiny packets: frames with more than 255 / 4095 messages, batches with more than 65535 payload bytes
@@ -956,15 +1058,15 @@ void kindCase(long idx, Batch& b, Rng& r)
 
 struct Plan
 {
-    long sweep1 = 0, sweep2 = 0, minSweep = 0, topSweep = 0, kinds = 0, empty = 0, randomBatches = 0;
+    long sweep1 = 0, sweep2 = 0, minSweep = 0, topSweep = 0, countSweep = 0, kinds = 0, empty = 0, randomBatches = 0;
     long histDet = 0, histRandom = 0;
     long total() const
     {
-        return sweep1 + sweep2 + minSweep + topSweep + kinds + empty + randomBatches + histDet + histRandom;
+        return sweep1 + sweep2 + minSweep + topSweep + countSweep + kinds + empty + randomBatches + histDet + histRandom;
     }
 };
 
-constexpr long kHistDetSpecial = 6;
+constexpr long kHistDetSpecial = 9;
 constexpr long kHistDetPairs = 12 * 12;
 
 Plan plan(const Ctx& c)
@@ -978,6 +1080,7 @@ Plan plan(const Ctx& c)
         p.sweep2 = sweep2Count(th);
         p.minSweep = kMinSweep;
         p.topSweep = kTopSweep;
+        p.countSweep = kCountSweep;
         p.kinds = kKindCases;
         p.empty = 4;
         p.randomBatches = th ? 2000000 : 40000;
@@ -1021,7 +1124,8 @@ void runBatchCase(Ctx& c, const Batch& b, Rng& r, uint16_t dev, uint8_t stream)
 
 struct Op
 {
-    int kind = 3;  // 0 setDeviceId, 1 setStreamId, 2 restart, 3 encode
+    int kind = 3;  // 0 setDeviceId, 1 setStreamId, 2 restart, 3 encode, 4 encode whose input iterator throws, 5 encode with an unallocatable maximum
+    size_t throwAt = 0;
     uint16_t dev = 0;
     uint8_t stream = 0;
     Batch batch;
@@ -1123,6 +1227,25 @@ std::vector<Op> detHistory(long j, Rng& r)
                 }
                 enc(smallBatch(r));
                 break;
+            case 6:  // an earlier call left encode() by an exception (iterator failure mid-batch, unallocatable frame size)
+            case 7:
+            case 8:
+            {
+                Op a;
+                a.kind = (j == 7) ? 5 : 4;
+                a.batch = canonicalShape(j == 8 ? 1 : 3, 0, r);  // data packets
+                a.throwAt = (j == 8) ? 2 : 0;
+                h.push_back(a);
+                enc(canonicalShape(3, 0, r));  // same type, needs segmentation
+                enc(canonicalShape(1, 0, r));
+                Op a2 = a;
+                a2.kind = 4;
+                a2.throwAt = 1;
+                a2.batch = canonicalShape(1, 2, r);
+                h.push_back(a2);
+                enc(canonicalShape(0, 1, r));
+                break;
+            }
             case 5:  // many encode calls on one encoder (more than 256, more than 4096): small batches, one config
                 for (int i = 0; i < 4200; ++i)
                 {
@@ -1168,13 +1291,19 @@ std::vector<Op> randomHistory(Ctx& c, Rng& r)
         else
         {
             o.kind = 3;
-            if (r.chance(1, 12))
+            if (c10 && r.chance(1, 12))
+            {
+                o.batch = genBatch(r, 6, false, true);
+                o.kind = r.chance(1, 4) ? 5 : 4;
+                o.throwAt = r.below(o.batch.pkts.size());
+            }
+            else if (r.chance(1, 12))
             {
                 o.batch.cfg = genConfig(r);  // empty batch
             }
             else
             {
-                o.batch = genBatch(r, c10 ? 8 : 5, false);
+                o.batch = genBatch(r, c10 ? 8 : 5, false, c.prop != "C01");
                 // the same context across consecutive calls is the common usage: reuse the previous one half of the time
                 if (r.chance(1, 2))
                     for (size_t k = h.size(); k-- > 0;)
@@ -1190,6 +1319,70 @@ std::vector<Op> randomHistory(Ctx& c, Rng& r)
     return h;
 }
 
+// a caller's forward iterator that fails in the middle of a batch (legal C++: the exception propagates out of encode())
+struct ThrowingIt
+{
+    using iterator_category = std::forward_iterator_tag;
+    using value_type = Packet;
+    using difference_type = std::ptrdiff_t;
+    using pointer = const Packet*;
+    using reference = const Packet&;
+    const std::vector<Packet>* v = nullptr;
+    size_t i = 0;
+    size_t throwAt = 0;
+    reference operator*() const
+    {
+        if (i == throwAt)
+            throw std::runtime_error("input iterator failed");
+        return (*v)[i];
+    }
+    ThrowingIt& operator++()
+    {
+        ++i;
+        return *this;
+    }
+    ThrowingIt operator++(int)
+    {
+        ThrowingIt t = *this;
+        ++i;
+        return t;
+    }
+    bool operator==(const ThrowingIt& o) const
+    {
+        return i == o.i;
+    }
+    bool operator!=(const ThrowingIt& o) const
+    {
+        return i != o.i;
+    }
+};
+
+// returns true if the call left encode() by an exception
+bool runAbortedEncode(Encoder& enc, const Op& o)
+{
+    std::vector<Packet> v;
+    for (auto& d : o.batch.pkts)
+        v.push_back(makePacket(d));
+    DataContext ctx;
+    ctx.minBytesPerMessage = o.batch.cfg.min;
+    ctx.maxBytesPerMessage = o.kind == 5 ? static_cast<size_t>(-1) : o.batch.cfg.max;
+    try
+    {
+        if (o.kind == 5)
+            enc.encode(v.begin(), v.end(), ctx);
+        else
+        {
+            ThrowingIt b{&v, 0, o.throwAt}, e{&v, v.size(), o.throwAt};
+            enc.encode(b, e, ctx);
+        }
+    }
+    catch (const std::exception&)
+    {
+        return true;
+    }
+    return false;
+}
+
 void runHistory(Ctx& c, const std::vector<Op>& h, Rng& r)
 {
     Encoder enc;
@@ -1203,10 +1396,11 @@ void runHistory(Ctx& c, const std::vector<Op>& h, Rng& r)
     bool prevEndedWithSegment = false;
     std::string log;
     int prevOp = -1;
+    bool resync = false;
     for (size_t oi = 0; oi < h.size(); ++oi)
     {
         const Op& o = h[oi];
-        if (o.kind != 3)
+        if (o.kind < 3)
         {
             if (o.kind == 0)
             {
@@ -1229,9 +1423,29 @@ void runHistory(Ctx& c, const std::vector<Op>& h, Rng& r)
                 if (c.prop == "C09")
                     c.violation("C09:configured-ids-not-reported", "getDeviceId/getStreamId differ from the values set", log);
             last = 0;
+            resync = false;
             sawReset = true;
             hsig = mix64(hsig, static_cast<uint64_t>(o.kind));
             prevOp = o.kind;
+            continue;
+        }
+        if (o.kind == 4 || o.kind == 5)
+        {
+            c.note(log + (o.kind == 4 ? "encode(iterator throws at packet " + std::to_string(o.throwAt) + ")" : "encode(max=SIZE_MAX)"));
+            bool threw = runAbortedEncode(enc, o);
+            log += o.kind == 4 ? "encode(ITERATOR THROWS at " + std::to_string(o.throwAt) + " of " + std::to_string(o.batch.pkts.size()) + " pkts,max=" + std::to_string(o.batch.cfg.max) + "); "
+                               : "encode(" + std::to_string(o.batch.pkts.size()) + " pkts,max=SIZE_MAX -> throws); ";
+            if (threw)
+                c.count("encode_calls_left_by_exception");
+            // the frames of an aborted call were never emitted: the next emitted frame re-synchronises the C09 shadow counter
+            resync = true;
+            hsig = mix64(hsig, 40 + static_cast<uint64_t>(o.kind));
+            prevOp = o.kind;
+            if (!o.batch.pkts.empty())
+            {
+                prevLastType = o.batch.pkts[std::min(o.throwAt, o.batch.pkts.size() - 1)].msgType;
+                prevEndedWithSegment = false;
+            }
             continue;
         }
         const Batch& b = o.batch;
@@ -1243,6 +1457,11 @@ void runHistory(Ctx& c, const std::vector<Op>& h, Rng& r)
         auto frames = runEncode(enc, b);
         EncodeResult res = analyse(c, rep, b, std::move(frames), dev, stream, r, framesTotal < 2000);
         // C09 shadow state
+        if (resync && !res.frames.empty() && res.frames[0].size() >= 8)
+        {
+            last = static_cast<uint16_t>(wire::get16(res.frames[0].data() + 6) - 1);
+            resync = false;
+        }
         uint16_t before = last;
         last = checkHeaders(rep, b, res.frames, res.walk, dev, stream, last);
         if (!res.frames.empty())
@@ -1389,10 +1608,22 @@ void runCase(Ctx& c, long idx)
         return;
     }
     i -= p.topSweep;
+    if (i < p.countSweep)
+    {
+        Rng r = c.fixedRng(idx);
+        ids(r, dev, stream);
+        countSweep(i, b, r);
+        runBatchCase(c, b, r, dev, stream);
+        c.count("message_count_boundary_cases");
+        return;
+    }
+    i -= p.countSweep;
     if (i < p.kinds)
     {
         Rng r = c.fixedRng(idx);
         ids(r, dev, stream);
+        if (c.prop == "C01" && i >= K_COUNT * 2 + 18)
+            return;  // message type 'undefined' is outside C01's domain
         kindCase(i, b, r);
         runBatchCase(c, b, r, dev, stream);
         return;
@@ -1426,7 +1657,7 @@ void runCase(Ctx& c, long idx)
     {
         Rng r = c.caseRng(idx);
         ids(r, dev, stream);
-        b = genBatch(r, c.thorough() ? 40 : 12, r.chance(1, 40));
+        b = genBatch(r, c.thorough() ? 40 : 12, r.chance(1, 40), c.prop != "C01");
         runBatchCase(c, b, r, dev, stream);
         return;
     }
